@@ -1058,6 +1058,16 @@ def rule_K_ENCFALLBACK(ctx, repo):
                     t = unparse(p_.test)
                     if t in ('%s is None' % choice, 'not %s' % choice, '%s == None' % choice):
                         asked_none = True
+                if isinstance(p_, ast.If) and cur in p_.orelse and unparse(p_.test) in ('%s is not None' % choice, choice, '%s != None' % choice):
+                    asked_none = True
+                # an earlier `if <choice> is not None: return ...` leaves only the None case for what follows
+                for fld in ('body', 'orelse', 'finalbody'):
+                    blk = getattr(p_, fld, None)
+                    if isinstance(blk, list) and cur in blk:
+                        for st_ in blk[:blk.index(cur)]:
+                            if isinstance(st_, ast.If) and unparse(st_.test) in ('%s is not None' % choice, '%s != None' % choice) and st_.body \
+                                    and isinstance(st_.body[-1], (ast.Return, ast.Raise)):
+                                asked_none = True
                 if isinstance(p_, ast.ExceptHandler):
                     in_handler = True
                 cur = p_
@@ -1071,3 +1081,30 @@ def rule_K_ENCFALLBACK(ctx, repo):
                                                                               'inside an exception handler' if in_handler else 'outside `if %s is None`' % choice),
                          '%s:%d' % (m.rel, r.lineno))
     ctx.ob('K-HASH', 'weak-encoder returns of the crypto functions examined', True, n=max(n, 1))
+
+
+def rule_K_CHAIN_COPIES(ctx, repo):
+    """K-STATE (a chain owns its links): `a + b` stores copies of its operands as the links of the result.  Storing the operands themselves makes the chain an
+    alias of objects the caller still holds: assigning `a.typed = True` (to build another chain, in a module only one of two sessions imports) changes the
+    keys of the chain that is already in use - the same call is keyed differently depending on what else the process did."""
+    m = repo.mod('keymaps')
+    ci = m.classes.get('keymap')
+    if ci is None or '__add__' not in ci.methods:
+        raise AnalysisError('anchor vanished: keymaps.keymap.__add__')
+    fn = ci.methods['__add__'].node
+    params = [a.arg for a in fn.args.args]
+    n = 0
+    for x in ast.walk(fn):
+        if isinstance(x, ast.Assign):
+            for t in x.targets:
+                if isinstance(t, ast.Attribute) and t.attr in ('__inner__', '__outer__', 'inner', 'outer'):
+                    n += 1
+                    bare = isinstance(x.value, ast.Name) and x.value.id in params
+                    ctx.ob('K-STATE', 'keymap.__add__: the link %s is a copy of the operand' % t.attr, not bare)
+                    if bare:
+                        ctx.fail('K-STATE', ci.methods['__add__'].qual, 'chain link %s aliases the operand' % t.attr,
+                                 'keymap.__add__ stores the operand `%s` itself as %s of the chain: a later change of that keymap through its public attributes (typed, flat, '
+                                 'sentinel - e.g. while composing a second chain) silently changes the keys of the chain already handed to a decorator, so one call is keyed '
+                                 'differently in two sessions that differ only in what else they set up' % (x.value.id, t.attr), '%s:%d' % (m.rel, x.lineno))
+    if n < 2:
+        raise AnalysisError('anchor vanished: keymap.__add__ no longer assigns the chain links')
